@@ -207,7 +207,11 @@ func (ic instrCompiler) ProcessEtcLookupInstr(l ir.EtcLookup) {
 
 // ProcessFillTableInstr compiles a FillTable instruction.
 func (ic instrCompiler) ProcessFillTableInstr(f ir.FillTable) {
-	if f.Idx < 0 || f.Idx >= 256 {
+	if f.IdxInReg {
+		ic.Emit(code.FillTableFrom(ic.codeReg(f.Dst), ic.codeReg(f.Etc), ic.codeReg(f.IdxReg)))
+		return
+	}
+	if f.Idx < 0 || f.Idx > ir.MaxFillTableIdx {
 		panic(newPanic("too many items before a multiple value expression in table constructor"))
 	}
 	ic.Emit(code.FillTable(ic.codeReg(f.Dst), ic.codeReg(f.Etc), f.Idx))
